@@ -253,6 +253,9 @@ func c34ECHInner(r *mon.Run, servers []c34Server, pts []c34Probed, evaluate func
 	n := mon.Pick(6000, 200000)
 	var decrypted atomic.Int64
 	parallelW(n, func(w, k int) {
+		if hangsSeen.Load() >= 5 {
+			return
+		}
 		rg := Sub("C34ech", k)
 		bi := rg.Intn(len(base))
 		ch := base[bi]
